@@ -692,7 +692,12 @@ func (ex *Exec) builtin(ctx *callCtx, b *ssa.Builtin) []cont {
 			return ctx.ret(scalar(slen(v.T), types.Typ[types.Int]))
 		}
 		if mt, ok := ctx.cc.Args[0].Type().Underlying().(*types.Map); ok {
-			return ctx.ret(scalar(Ite(Eq(v.T, IntLit(0, SRef)), IntLit(0, SInt), ex.mapLen(st, mt, v.T)), types.Typ[types.Int]))
+			ln := Ite(Eq(v.T, IntLit(0, SRef)), IntLit(0, SInt), ex.mapLen(st, mt, v.T))
+			// the length of a map is the size of its key set
+			k := BVar("k", keySort(mt))
+			st.assume(Ge(ln, IntLit(0, SInt)))
+			st.assume(Implies(Eq(ln, IntLit(0, SInt)), Forall([]*Term{k}, Not(ex.mapHasNil(st, mt, v.T, k)))))
+			return ctx.ret(scalar(ln, types.Typ[types.Int]))
 		}
 		if _, ok := ctx.cc.Args[0].Type().Underlying().(*types.Chan); ok {
 			return ctx.ret(scalar(Select(st.get("Chlen", SArr(SRef, SInt)), v.T), types.Typ[types.Int]))
